@@ -83,6 +83,17 @@ class Interp(object):
             return out
         if isinstance(e, ast.IfExp):
             return join(self.kind(e.body, env), self.kind(e.orelse, env))
+        if isinstance(e, (ast.ListComp, ast.GeneratorExp)) and len(e.generators) == 1:
+            g = e.generators[0]
+            b = self.kind(g.iter, env)
+            if b is not None and b.lvl == "BODY" and isinstance(g.target, ast.Name):
+                e2 = dict(env)
+                e2[g.target.id] = K("NODE", False)
+                ke = self.kind(e.elt, e2)
+                if ke is not None and ke.lvl == "NODE":
+                    return K("BODY", False) if not ke.owned else K("BODY", True)
+                return None
+            return None
         if isinstance(e, ast.Tuple) and len(e.elts) == 2:
             k = self.kind(e.elts[1], env)
             if k is not None and k.lvl == "L2":
@@ -173,6 +184,34 @@ class Interp(object):
                         pn = names[idx] if idx < len(names) else None
                         arg = args[idx] if idx < len(args) and not any(isinstance(a, ast.Starred) for a in args[: idx + 1]) else next((k.value for k in e.keywords if k.arg == pn), None)
                         return self.kind(arg, env) if arg is not None else None
+                    if idx is None and t.qualname != "emitter_utils.get_internal_body" and isinstance(t.node, ast.FunctionDef) \
+                            and getattr(self, "_ret_depth", 0) < 2:
+                        # return-kind summary: the join of the kinds of what the helper returns, its parameters bound to the
+                        # kinds of the arguments (a helper that copies only some elements of a carried body hands back a
+                        # list that still shares nodes with it)
+                        names = [x.arg for x in t.node.args.posonlyargs + t.node.args.args]
+                        cenv = {}
+                        for nme, a_ in zip(names, e.args):
+                            if not isinstance(a_, ast.Starred):
+                                k_ = self.kind(a_, env)
+                                if k_ is not None:
+                                    cenv[nme] = k_
+                        for kw_ in e.keywords:
+                            if kw_.arg in names:
+                                k_ = self.kind(kw_.value, env)
+                                if k_ is not None:
+                                    cenv[kw_.arg] = k_
+                        if cenv:
+                            rets = [r.value for r in ast.walk(t.node) if isinstance(r, ast.Return) and enclosing_fn(r) is t and r.value is not None]
+                            self._ret_depth = getattr(self, "_ret_depth", 0) + 1
+                            try:
+                                out = None
+                                for r in rets:
+                                    out = join(out, self.kind(r, cenv))
+                            finally:
+                                self._ret_depth -= 1
+                            if out is not None:
+                                return out
                     if t.qualname == "emitter_utils.get_internal_body":
                         irk = next((self.kind(k.value, env) for k in e.keywords if k.arg == "intermediate_repr"), None) or (self.kind(e.args[2], env) if len(e.args) > 2 else None)
                         if irk is not None and irk.lvl == "IR0":
